@@ -103,6 +103,12 @@ check("C10", "exploration",
       "randomised concurrent API stress under -race with crash / race / tree-consistency oracles",
       "DESIGN.md §4 C10")
 
+check("C11", "exploration",
+      "Generated bursts (count, size classes around 4096 and up to just under the 4 MiB frame limit, Tell / Ask mix, several senders, both directions) between two real systems, with a generator-owned proxy that re-chunks the TCP byte stream (1-byte writes, split frames, many frames per write); a fence protocol decides loss without a timeout oracle; per-sender sequence, content, replies and sender reference are compared with what was sent.",
+      "Real TCP on loopback: the proxy influences read boundaries, the kernel decides them. Sampling.",
+      "property-based testing (rapid) over a generated byte-stream chunking proxy with a round-trip / sequence oracle",
+      "DESIGN.md §4 C11, §3.6")
+
 NOT_YET = {}
 
 def main():
